@@ -148,6 +148,17 @@ CHECKS = {
    design="4 C14",
    note=COMMON_NOTE + "Hypothesis StreamFresh stands for the entropy source; observed, not proved.",
    technique="Lean 4 proof (induction over the call history of an entropy-stream state machine) + history correspondence with recorded draws"),
+ "C07": dict(
+   text="Lean theorems: over the layout tables re-extracted from the running code (decide +kernel): C07_layout_disjoint (all 11 slots of each SoC pairwise disjoint, across "
+        "domains), C07_layout_roles_unique, C07_layout_roles_known, C07_slot_keys; general: findSub_sound + C07_class_at_offset (wherever the 32-byte component-id pattern is "
+        "found, the 16 bytes at the recorded offset are the pattern's UUID - no first-occurrence caveat), C07_pattern_prefix (the +16), C07_slot (every segment of a domain "
+        "image is the slot map of a stored envelope of that domain at base+offset followed by 0xFF to the slot size - and nothing else), C07_no_partial_output (a rejected "
+        "envelope means no image at all), C07_reject_duplicate. Partial: 'the stored envelope is the input stripped, manifest and wrapper byte-identical' rests on the C03 "
+        "round trip, which is not a theorem; it is checked on every stored slot. Tie: sets of 1-11 envelopes, both SoCs, random bases, kconfig, signed/unsigned, failing "
+        "sets; real hex files read with the verifier's reader vs the model images; every slot decoded and checked.",
+   design="4 C07",
+   note=COMMON_NOTE + "Model = create(sever(parse(file))) through the generic interpreter; intelhex writer not modelled (files read back).",
+   technique="Lean 4 proof (decide over generated layout, list lemmas for find/slot) + correspondence on memory images + per-slot direct check"),
 }
 
 NA_REASON = "check not yet built in this revision (work in progress; DESIGN.md section 4 describes the planned model and theorems)"
